@@ -304,6 +304,7 @@ class Engine:
         self.type_models = {}
         self.generic_indices = []    # index terms at which full reductions are instantiated (set by the harness)
         self.externals = {}          # dotted external name -> assumed contract (python callable)
+        self.generator_sinks = {}    # qualified generator function -> factory(frame) of a yield sink (body verification)
         self.callee_contracts = {}   # qualified name -> python callable(engine, args, kwargs)
         self.loop_specs = {}         # (qualname, k) -> LoopSpec
         from . import npmodel
@@ -531,6 +532,13 @@ class Engine:
                 out = PathOutcome("unsupported", None, self.pc, self.obligations, self.assumptions, self.trace, note=str(e))
             except RecursionError:
                 out = PathOutcome("unsupported", None, self.pc, self.obligations, self.assumptions, self.trace, note="recursion limit")
+            except (AttributeError, TypeError, KeyError, IndexError, ValueError, AssertionError, z3.Z3Exception) as e:
+                # a harness / sidecar contract written for the code's present shape met code of another shape (or the model is incomplete):
+                # never a verdict -- the path is undecided and the obligations it used to produce are reported as lost
+                import traceback as _tb
+                where = _tb.extract_tb(e.__traceback__)[-1]
+                out = PathOutcome("unsupported", None, self.pc, self.obligations, self.assumptions, self.trace,
+                                  note=f"contract or model does not fit this code: {type(e).__name__}: {e} ({os.path.basename(where.filename)}:{where.lineno})")
             outcomes.append(out)
         return outcomes
 
@@ -596,7 +604,8 @@ class Engine:
             if isinstance(node, ast.Lambda):
                 return fr.eval(node.body)
             if any(isinstance(n, (ast.Yield, ast.YieldFrom)) for n in ast.walk(node)):
-                return fr.run_generator(node)
+                sink = self.generator_sinks.get(qn)
+                return fr.run_generator(node, sink(fr) if sink is not None else None)
             try:
                 fr.exec_block(node.body)
             except _Return as r:
@@ -920,6 +929,10 @@ class Frame:
 
     def havoc_for_spec(self, spec, mods):
         for name in mods:
+            if name.startswith("<"):          # pseudo-name: state that is not a variable (the loop's iterator)
+                if spec.havoc:
+                    spec.havoc(self, name, None)
+                continue
             if self.env.has(name) or name in self.env.vars:
                 try:
                     old = self.load_name(name)
@@ -955,6 +968,7 @@ class Frame:
             self.exec_block(st.orelse)
             return
         lname = f"{self.qualname}/loop{self.loop_counter}:{spec.name}"
+        self.current_iterator = it          # the loop contract may speak about the iterator's state (cursors)
         eng.oblige(f"{lname}/inv-init", T.zb(spec.invariant(self, 0)), kind="inv-init")
         mods = spec.modifies if spec.modifies is not None else sorted(assigned_names(st.body) | assigned_names([st.target]))
         k = T.fresh("k", "int")
@@ -1019,14 +1033,19 @@ class Frame:
         self.exec_block(st.orelse)
 
     # -------------------------------------------------------------- generators (eager)
-    def run_generator(self, node):
-        """Generators are run eagerly into a list (sound for pure producers)."""
-        out = []
+    def run_generator(self, node, sink=None):
+        """Generators are run eagerly into a list (sound for pure producers).  A harness that verifies a generator body against its
+        per-resumption contract supplies its own sink (engine.generator_sinks): an object with append(value) called at every yield and
+        finished() called when the body returns."""
+        out = [] if sink is None else sink
         self._yield_sink = out
         try:
             self.exec_block(node.body)
         except _Return:
             pass
+        if sink is not None:
+            sink.finished()
+            return None
         return GeneratorValue(out)
 
     # -------------------------------------------------------------- assignment helpers
